@@ -69,8 +69,15 @@ def run(ctx: Ctx, aspect="verdict"):
     s = Stream(ctx, "re-used rule objects: second application vs a fresh rule object")
     reuse_stream(ctx, s, ctx.size(1500, 20000))
     s.finish()
-    # non-strict rules: outside the oracle, compared with the model for information (drift)
-    s = Stream(ctx, "random-nonstrict(model only)")
-    judge_rule_stream(ctx, s, evaluate(ctx, random_cases(ctx.rng("ns"), ctx.size(3000, 30000), strict=False)), aspect)
+    # rules over related names: judged by the specification inside the widest oracle domain (parentFree: the parent of a
+    # 'sub modules of' filter is not a member of a filter of the rule), compared with the model only outside it (drift)
+    s = Stream(ctx, "random rules over related names (oracle on the parentFree domain, model only outside)")
+    rng = ctx.rng("ns")
+    n = ctx.size(24000, 300000)
+    done = 0
+    while done < n and ctx.left() > 20 and not ctx.violations:
+        batch = random_cases(rng, min(12000, n - done), comps=gen.ADVERSARIAL if done % 24000 else gen.PLAIN, strict=False)
+        judge_rule_stream(ctx, s, evaluate(ctx, batch), aspect)
+        done += len(batch)
     s.finish()
     return RULE
